@@ -89,9 +89,24 @@ Definition notified (rc : list (N * qitem)) (aux : list (N * addressee)) (rep co
              | _ => true
              end) aux.
 
+(* the op that carries the server's Close (processed, buffer not sealed before): bytes
+   written + buffered grows by exactly the 12 bytes of CloseOk - what was queued before
+   stays queued *)
+Fixpoint server_close_total (prev_total : N) (prev_sealed : bool)
+         (l : list (cop * cobs * digest * N)) : bool :=
+  match l with
+  | [] => true
+  | (o, b, d, t) :: l' =>
+      (if existsb is_close (frames_of_op o) && negb prev_sealed &&
+          match b with BOutcome OOk _ _ => true | _ => false end
+       then t =? prev_total + 12 else true) &&
+      server_close_total t (d_sealed d) l'
+  end.
+
 Definition oracle_ok (c : case) : bool :=
   let '(_, _, ops, obs, aux) := c in
   let rc := received ops obs in
+  server_close_total 0 false (map (fun '(x, t) => (x, t)) (combine (zip3 ops obs) (totals 0 obs))) &&
   oracle_no_panic obs && frozen_after_seal obs && done_ok ops obs && oracle_consumers ops obs &&
   match server_close_of ops, client_close_bytes ops with
   | Some (code, text), _ =>
